@@ -715,31 +715,7 @@ func (w *recordingWriter) Write(p []byte) (int, error) { return w.buf.Write(p) }
 // C11: streaming progress at library level.
 func runC11(prop string, res *Result, pool *DrvPool, r *Rng) {
 	res.Rule = "streams (junk, then optionally a dump, then a terminating line and more text) delivered by a scripted reader in arbitrary pieces; at every Read call (a potential blocking point) the writer must already hold every complete pass-through line delivered so far, and no Read may happen once the terminating line has been delivered; non-trivial = the stream has at least 2 pass-through lines; distinct by (stream, schedule)"
-	n := countN(res.Tier, 1500, 40000)
-	for i := 0; i < n; i++ {
-		segs := genSegments(r, r.Intn(2))
-		input := joinSegs(segs)
-		if input == "" {
-			continue
-		}
-		// pass-through text of the first call = the first junk segment
-		pass := segs[0].text
-		hasDump := len(segs) > 1
-		termEnd := -1
-		if hasDump {
-			// the first line after the dump (and its optional blank) ends the snapshot
-			after := len(segs[0].text) + len(segs[1].text)
-			if e := strings.IndexByte(input[after:], '\n'); e >= 0 {
-				termEnd = after + e + 1
-			}
-		}
-		sched := genSched(r, len(input))
-		if r.Bool() {
-			sched = make([]int, len(input))
-			for j := range sched {
-				sched[j] = 1
-			}
-		}
+	runCase := func(i int, input, pass string, termEnd int, sched []int) {
 		w := &recordingWriter{}
 		rd := &SchedReader{data: []byte(input), sched: sched, final: io.EOF}
 		var violation string
@@ -795,12 +771,58 @@ func runC11(prop string, res *Result, pool *DrvPool, r *Rng) {
 		if readsAfterTerm > 0 {
 			res.Violation(Finding{Stream: "trace", What: fmt.Sprintf("%d Read calls were made after the line terminating the dump had been delivered", readsAfterTerm), Op: op})
 		}
-		if hasDump {
+		if termEnd >= 0 {
 			res.Count("with-dump")
 		}
 		if i < 3 {
 			res.Sample(map[string]interface{}{"stream": clip(input), "reads": rd.Reads})
 		}
+	}
+	// lines whose length is exactly the reader's buffer (or a multiple of it), the sizes next to
+	// it, and well beyond it: a complete line must not be taken for the first piece of a longer one
+	for _, L := range []int{16383, 16384, 16385, 32767, 32768, 32769, 49152, 65536} {
+		for _, piece := range []int{0, 1, 7} {
+			line := strings.Repeat("x", L-1) + "\n"
+			input := "first\n" + line + "after the long line\nlast\n"
+			var sched []int
+			switch piece {
+			case 0: // each line delivered in one piece, then the source pauses
+				sched = []int{6, L, 20, 5}
+			case 1: // the long line arrives with the head of the next one
+				sched = []int{6, L + 3, 17, 5}
+			default: // in two pieces
+				sched = []int{6, L / 2, L - L/2, 20, 5}
+			}
+			runCase(1, input, input, -1, sched)
+			res.Count("buffer-length-lines")
+		}
+	}
+	n := countN(res.Tier, 1500, 40000)
+	for i := 0; i < n; i++ {
+		segs := genSegments(r, r.Intn(2))
+		input := joinSegs(segs)
+		if input == "" {
+			continue
+		}
+		// pass-through text of the first call = the first junk segment
+		pass := segs[0].text
+		hasDump := len(segs) > 1
+		termEnd := -1
+		if hasDump {
+			// the first line after the dump (and its optional blank) ends the snapshot
+			after := len(segs[0].text) + len(segs[1].text)
+			if e := strings.IndexByte(input[after:], '\n'); e >= 0 {
+				termEnd = after + e + 1
+			}
+		}
+		sched := genSched(r, len(input))
+		if r.Bool() {
+			sched = make([]int, len(input))
+			for j := range sched {
+				sched[j] = 1
+			}
+		}
+		runCase(i, input, pass, termEnd, sched)
 	}
 	runC11Process(res, r.Fork())
 }
